@@ -115,6 +115,13 @@ structure Opts where
   useGenericContainerTypes : Bool := false
   useUnionOperator : Bool := false
   useDoubleQuotes : Bool := false
+  /-- options of later passes / of the writer; fields here so that "stage 1 does not read them" is a statement -/
+  keepModelOrder : Bool := false
+  reuseModel : Bool := false
+  collapseRootModels : Bool := false
+  /-- `target_python_version` as minor version (3.x) and whether the default formatters run -/
+  targetMinor : Nat := 9
+  formatters : Bool := false
   deriving DecidableEq, Repr, Inhabited
 
 /-- `Parser.__init__` raises for `use_annotated` without `field_constraints` -/
